@@ -539,6 +539,10 @@ func (seqEngine) Gen(prop string, seed uint64, tier string) *Spec {
 			g.emit(&Op{K: "mkdir", H: 0, N: fmt.Sprintf("drain%d", i)})
 			did := g.ops[len(g.ops)-1].ID
 			cnt := 28 + rng.Intn(45)
+			if rng.Chance(0.12) {
+				// more than 256 entries: the directory's own blocks go beyond the direct pointers
+				cnt = 250 + rng.Intn(40)
+			}
 			for j := 0; j < cnt; j++ {
 				g.emit(&Op{K: []string{"create", "create", "create", "mkdir", "symlink"}[rng.Intn(5)], H: did, N: fmt.Sprintf("e%d", j), How: 1, Len: 5, Pat: 1})
 			}
@@ -549,7 +553,7 @@ func (seqEngine) Gen(prop string, seed uint64, tier string) *Spec {
 			for k := rng.Intn(3); k > 0; k-- {
 				if rng.Chance(0.7) {
 					// entries 32, 33, 64, 65 are the first of a block (after "." and "..")
-					keep[[]int{29, 30, 31, 32, 61, 62, 63, 64}[rng.Intn(8)]] = true
+					keep[[]int{29, 30, 31, 32, 61, 62, 63, 64, 253, 254, 255, 256}[rng.Intn(8+4*(cnt/260))]] = true
 				} else {
 					keep[rng.Intn(cnt)] = true
 				}
